@@ -170,3 +170,58 @@ proof_h! {
         reach!();
     }
 }
+
+/// `t1` (length `n1`) is a proper prefix of `t2` (length `n2`).
+#[cfg(kani)]
+fn proper_prefix(t1: &[u8; crate::hashmodel::CAP], n1: usize, t2: &[u8; crate::hashmodel::CAP], n2: usize) -> bool {
+    if n1 >= n2 { return false; }
+    let mut i = 0;
+    let mut same = true;
+    while i < n1 { if t1[i] != t2[i] { same = false; } i += 1; }
+    same
+}
+
+/// Op shapes that share a tag byte must still be uniquely decodable: with equal header and
+/// slots, the preimage of a one-op patch of shape `k1` is never a proper prefix of the preimage
+/// of a one-op patch of shape `k2`. (A prefix pair lets the bytes of a *following* op be read as
+/// the tail of this one, i.e. two different op lists with one digest.)
+#[inline(always)]
+fn no_prefix_pair(k1: u8, k2: u8) {
+    #[cfg(kani)]
+    {
+        crate::hashmodel::reset();
+        let f1 = fields(k1, 0);
+        let mut f2 = fields(k2, 0);
+        // same header and slots; only the op differs in shape and content
+        f2.policy = f1.policy; f2.rule_pack = f1.rule_pack; f2.status = f1.status; f2.in_slot = f1.in_slot; f2.out_slot = f1.out_slot;
+        // the shared leading fields of the op (instance, owner ids) are left independent: a prefix must be excluded for all of them
+        let _ = digest(&f1);
+        let (t1, n1) = crate::hashmodel::transcript();
+        let _ = digest(&f2);
+        let (t2, n2) = crate::hashmodel::transcript();
+        assert!(!proper_prefix(&t1, n1, &t2, n2) && !proper_prefix(&t2, n2, &t1, n1), "op encodings with the same tag are not prefix-free");
+        core::mem::forget((f1, f2));
+    }
+}
+
+//@ tier=quick timeout=2400 mem=14 bits=3000 unwind=5 unwindset="hashmodel=520;eq32=33;memcmp=34;proper_prefix=520" fns=warp_core::tick_patch::compute_patch_digest_v2,encode_ops,encode_attachment_key_opt,encode_portal_init,encode_attachment_value_opt
+//@ bounds="one-op patches with identical header/slots; op shape pairs that share a tag byte: UpsertWarpInstance with/without parent, OpenPortal Empty/RequireExisting; all ids symbolic"
+//@ desc="patch digest preimage is uniquely decodable: an optional field (instance parent, portal init) always leaves a presence marker, so one op's bytes are never a proper prefix of another's"
+proof_h! {
+    fn c05_patch_digest_optional_fields_prefix_free() {
+        no_prefix_pair(3, 2);
+        no_prefix_pair(1, 0);
+        reach!();
+    }
+}
+
+//@ tier=quick timeout=2400 mem=14 bits=3000 unwind=5 unwindset="hashmodel=520;eq32=33;memcmp=34;proper_prefix=520" fns=warp_core::tick_patch::compute_patch_digest_v2,encode_ops,encode_attachment_value_opt,encode_attachment_value,encode_atom_payload
+//@ bounds="one-op patches with identical header/slots; SetAttachment shape pairs: None vs Descend, None vs Atom, Descend vs Atom(2), Atom(1) vs Atom(2); all ids and bytes symbolic"
+//@ desc="patch digest preimage is uniquely decodable for attachment values: absent / Descend / Atom of each length are never prefixes of one another"
+proof_h! {
+    fn c05_patch_digest_attachment_values_prefix_free() {
+        no_prefix_pair(9, 11);
+        no_prefix_pair(12, 11);
+        reach!();
+    }
+}
